@@ -327,6 +327,12 @@ impl<'p> CoroutinePool<'p> {
             assert!(self.waits.insert(task_id, arc.clone()).is_none());
             arc
         };
+        // the task may have finished between the check above and the registration,
+        // in which case nobody is going to notify us
+        if let Some(r) = self.try_take_task_result(task_id) {
+            self.notify(task_id);
+            return Ok(r);
+        }
         let (lock, cvar) = &*arc;
         drop(
             cvar.wait_timeout_while(
